@@ -34,9 +34,10 @@ from common import coqrun, e2e, enc
 
 ID = "C20"
 PROP_FILE = "props/C20.v"
-MODEL_TARGETS = ["theories/CommSumm.vo"]
+MODEL_TARGETS = ["theories/CommSumm.vo", "theories/JobIds.vo"]
 THEOREMS = ["C20_summarize_spec", "C20_hull", "C20_one_slice_per_sequence", "C20_others_unchanged",
-            "C20_key_is_file_and_number", "C20_two_phase", "C20_error_branch"]
+            "C20_key_is_file_and_number", "C20_inputs_have_distinct_jobs", "C20_job_ids_always_assigned",
+            "C20_two_phase", "C20_error_branch"]
 ALLOWED_AXIOMS = []
 MANIFEST = {
     "text": "Proof. Coq theorems over an executable model (CommSumm.v) of CommunicationGroupContext "
@@ -375,6 +376,26 @@ _LOG_TEXT = "\n".join([
     "Total\t\t\t\t\t\t\t\t\t\t155500", "-" * 91, "====== Perf Summary End ======", "[DeepRT] ===== Perf END =====", ""])
 
 
+def real_job_ids(inp):
+    """the job ids the REAL ingestion gives the inputs of one run (one MultifileIngest, per-file ingesters in -i order)"""
+    import aiu_trace_analyzer.logger as aiulog
+    from aiu_trace_analyzer.ingest.ingestion import MultifileIngest
+    old = aiulog.loglevel
+    aiulog.loglevel = -1
+    try:
+        m = MultifileIngest(inp)
+        ids = [g.jobhash for g in m.ingesters]
+        for g in list(m.ingesters) + [m]:
+            for w in g.warnings.values():
+                w.auto_log = False
+        del m
+    except Exception as ex:  # noqa: BLE001
+        ids = enc.Err(type(ex).__name__)
+    finally:
+        aiulog.loglevel = old
+    return ids
+
+
 def drive_e2e(sc, workdir=None):
     """three runs on the same files: plain, --comm_summarize_seq, --comm_summarize_seq -I.
     Returns dict(a=slices|Err, b=slices|Err, c=slices|Err, coll=[snapshot events], appl=[snapshot events], jobs=[ids])"""
@@ -382,7 +403,8 @@ def drive_e2e(sc, workdir=None):
     try:
         paths = write_files(sc, d)
         inp = ",".join(paths)
-        res = {"jobs": e2e.job_ids(paths), "path_hashes": [zlib.crc32(p.encode()) % 10000 for p in paths]}
+        res = {"jobs": real_job_ids(inp), "path_hashes": [zlib.crc32(p.encode()) % 10000 for p in paths],
+               "mirror_jobs": e2e.job_ids(paths)}
         base = ["-i", inp, "-D", "0", "--disable_tb"] + list(sc.get("opts", []))
         if "@LOG" in base:          # a compiler log switches the utilization stages on (default counter rcu_util)
             log = os.path.join(d, "compiler.log")
@@ -824,6 +846,7 @@ def run(ctx):
 
     # ---- end to end
     eterms, ecases, transparent_bad, no_snapshot = [], [], [], []
+    idterms, idcases = [], []
     for c in e2es:
         res = drive_e2e(c, work)
         f = oracle_e2e(c, res)
@@ -844,6 +867,13 @@ def run(ctx):
                     cnt[g] = cnt.get(g, 0) + 1
             for v in cnt.values():
                 _hist(dist["parts_per_sequence"], min(v, 8))
+        if not isinstance(res["jobs"], enc.Err):
+            idterms.append((enc.P(enc.Z(e2e.TOP_LEVEL_JOB), enc.L([enc.P(enc.N(k + 1), enc.Z(h))
+                                                                   for k, h in enumerate(res["path_hashes"])])),
+                            enc.V(res["jobs"])))
+            idcases.append(c)
+            if len(set(res["path_hashes"])) < len(res["path_hashes"]):
+                _hist(dist, "e2e_runs_with_colliding_path_hashes")
         if isinstance(res["a"], enc.Err):
             _hist(dist, "e2e_plain_run_failed")
             continue
@@ -856,6 +886,14 @@ def run(ctx):
         evs = [snapshot_event(d) for d in res["coll"]]
         eterms.append((coq_events(evs), enc.V([project(d) for d in res["appl"]])))
         ecases.append(c)
+    # job ids: JobIds.run_ids on (path key, crc32(path) % 10000) in -i order vs the ids of the real ingesters
+    bad_i, _, secs_i = coqrun.run_cases(
+        "C20_ids", "From Coq Require Import String.\nFrom AiuModel Require Import Base JobIds.", "(Z * list (nat * Z))", "ids_val", idterms, prelude=IDS_PRELUDE)
+    ties.append({"name": "JobIds.run_ids(crc32 of the input paths) = job ids of the real MultifileIngest ingesters",
+                 "cases": len(idterms), "mismatching": len(bad_i), "coq_seconds": round(secs_i, 1)})
+    for j in bad_i[:3]:
+        mismatches.append({"name": "correspondence JobIds.run_ids vs MultifileIngest job ids",
+                           "case": idcases[j], "impl": idterms[j][1][:300]})
     bad, _, secs = coqrun.run_cases("C20_e2e", IMPORTS, EV_TY, "summarize_val", eterms)
     ties.append({"name": "CommSumm.summarize_val(snapshot behind collection) = snapshot behind apply (Acelyzer -I)",
                  "cases": len(eterms), "mismatching": len(bad), "coq_seconds": round(secs, 1)})
@@ -887,6 +925,15 @@ def run(ctx):
         "mismatches": mismatches, "oracle_failures": oracle_failures, "ties": ties, "distribution": dist,
         "traces_validated_against_impl": len(directs) + 3 * len(e2es),
     }
+
+
+IDS_PRELUDE = """
+Definition ids_val (c : Z * list (nat * Z)) : val :=
+  match run_ids (fst c) (snd c) with
+  | None => VE "no id"%string
+  | Some js => VL (map VZ js)
+  end.
+"""
 
 
 def search(ctx, res, broken):
